@@ -62,9 +62,10 @@ def mentions(k, name):
 
 
 class UB1:
-    def __init__(self, f, field_inv=None, max_iter=60, assume=None):
+    def __init__(self, f, field_inv=None, max_iter=60, assume=None, mods=None):
         self.f = f
         self.assume = assume or {}
+        self.mods = mods
         self.cfg = f.cfg
         self.nodes = f.nodes
         self.field_inv = field_inv or {}
@@ -292,6 +293,10 @@ class UB1:
         k = n["k"]
         if k == "BinaryOperator" and n["op"] == "=":
             self.assign(st, n["c"][0], self.eval(n["c"][1], st))
+            l, r = strip(n["c"][0]), strip(n["c"][1])
+            if l is not None and r is not None and l["k"] == "DeclRefExpr" and r["k"] in ("DeclRefExpr", "MemberExpr") \
+                    and const_value(r) is None:
+                st["?rel:%s<%s" % (key(l), key(r))] = (0, 1)     # l <= r
         elif k == "CompoundAssignOperator":
             op = n["op"][:-1]
             cur = self.eval(n["c"][0], st)
@@ -314,16 +319,25 @@ class UB1:
             c = n.get("callee")
             if c in PURE_CALLS:
                 return
-            # kill field paths whose root variable is handed to the callee (or is reachable from a global)
-            roots = set()
-            for a in n["c"][1:]:
-                for x in walk(a):
-                    if x["k"] == "DeclRefExpr" and x.get("dk") in ("Var", "Parm"):
-                        roots.add(x["n"])
-            for kk in [kk for kk in st if "->" in kk or "." in kk or "[" in kk or "strlen(" in kk]:
-                root = re.match(r"(?:strlen)?[\(\*&]*([A-Za-z_][A-Za-z0-9_]*)", kk)
-                if root is None or root.group(1) in roots or c is None:
+            fields = self.mods(self.f, c) if (self.mods is not None and c is not None) else None
+            if fields is not None:
+                # callee summary: only the struct fields it (transitively) stores can change
+                for kk in [kk for kk in st if "->" in kk or "." in kk]:
+                    if any(re.search(r"(->|\.)%s(?![A-Za-z0-9_])" % re.escape(fl), kk) for fl in fields):
+                        del st[kk]
+                for kk in [kk for kk in st if "strlen(" in kk or "[" in kk]:
                     del st[kk]
+            else:
+                # kill field paths whose root variable is handed to the callee (or is reachable from a global)
+                roots = set()
+                for a in n["c"][1:]:
+                    for x in walk(a):
+                        if x["k"] == "DeclRefExpr" and x.get("dk") in ("Var", "Parm"):
+                            roots.add(x["n"])
+                for kk in [kk for kk in st if "->" in kk or "." in kk or "[" in kk or "strlen(" in kk]:
+                    root = re.match(r"(?:strlen)?[\(\*&]*([A-Za-z_][A-Za-z0-9_]*)", kk)
+                    if root is None or root.group(1) in roots or c is None:
+                        del st[kk]
             for v in self.addr_taken:
                 self.kill_var(st, v)
 
